@@ -588,7 +588,11 @@ size_t varintBitmapEncode(const varintBitmap *vb, uint8_t *buffer) {
 }
 
 varintBitmap *varintBitmapDecode(const uint8_t *buffer, size_t len) {
-    (void)len; /* Unused, but kept for API consistency */
+    /* Header: type byte + 32-bit cardinality */
+    if (len < 1 + sizeof(uint32_t)) {
+        return NULL; /* Truncated */
+    }
+    len -= 1 + sizeof(uint32_t);
 
     varintBitmap *vb = malloc(sizeof(varintBitmap));
     if (!vb) {
@@ -604,6 +608,10 @@ varintBitmap *varintBitmapDecode(const uint8_t *buffer, size_t len) {
 
     switch (vb->type) {
     case VARINT_BITMAP_ARRAY:
+        if (vb->cardinality > len / sizeof(uint16_t)) {
+            free(vb);
+            return NULL; /* Truncated */
+        }
         vb->container.array.capacity = vb->cardinality;
         vb->container.array.values = malloc(vb->cardinality * sizeof(uint16_t));
         if (!vb->container.array.values) {
@@ -615,6 +623,10 @@ varintBitmap *varintBitmapDecode(const uint8_t *buffer, size_t len) {
         break;
 
     case VARINT_BITMAP_BITMAP:
+        if (len < VARINT_BITMAP_BITMAP_SIZE) {
+            free(vb);
+            return NULL; /* Truncated */
+        }
         vb->container.bitmap.bits = malloc(VARINT_BITMAP_BITMAP_SIZE);
         if (!vb->container.bitmap.bits) {
             free(vb);
@@ -624,8 +636,17 @@ varintBitmap *varintBitmapDecode(const uint8_t *buffer, size_t len) {
         break;
 
     case VARINT_BITMAP_RUNS:
+        if (len < sizeof(uint32_t)) {
+            free(vb);
+            return NULL; /* Truncated */
+        }
         memcpy(&vb->container.runs.numRuns, buffer, sizeof(uint32_t));
         buffer += sizeof(uint32_t);
+        len -= sizeof(uint32_t);
+        if (vb->container.runs.numRuns > len / (2 * sizeof(uint16_t))) {
+            free(vb);
+            return NULL; /* Truncated */
+        }
         vb->container.runs.capacity = vb->container.runs.numRuns;
         vb->container.runs.runs =
             malloc(vb->container.runs.numRuns * 2 * sizeof(uint16_t));
@@ -636,6 +657,10 @@ varintBitmap *varintBitmapDecode(const uint8_t *buffer, size_t len) {
         memcpy(vb->container.runs.runs, buffer,
                vb->container.runs.numRuns * 2 * sizeof(uint16_t));
         break;
+
+    default:
+        free(vb);
+        return NULL; /* Unknown container type */
     }
 
     return vb;
